@@ -2,13 +2,17 @@ package checks
 
 import (
 	"bytes"
+	"errors"
 	"fmt"
+	"net"
+	"net/url"
 	"os"
 	"os/exec"
 	"path/filepath"
 	"regexp"
 	"strconv"
 	"strings"
+	"time"
 
 	"verif/fw"
 
@@ -342,6 +346,263 @@ func runC16Proc(c *fw.Case) {
 				return
 			}
 		}
+	}
+	c.Outcome("ok")
+}
+
+// C05: `desync tar` then `desync untar`, catar file or index+store, both digests.
+func runC05Proc(c *fw.Case) {
+	src := filepath.Join(c.Dir(), "src")
+	dst := filepath.Join(c.Dir(), "dst")
+	nent, err := genTree(c, src, 30)
+	if err != nil {
+		c.HarnessError("%v", err)
+		return
+	}
+	want, err := snapshot(src)
+	if err != nil {
+		c.HarnessError("%v", err)
+		return
+	}
+	useIndex := c.Bool("cli.index")
+	sha256mode := c.Chance(1, 3, "cli.sha256")
+	storeDir := filepath.Join(c.Dir(), "store.d")
+	os.MkdirAll(storeDir, 0755)
+	os.MkdirAll(dst, 0755)
+	archive := filepath.Join(c.Dir(), "tree.catar")
+	var pre []string
+	if sha256mode {
+		pre = []string{"--digest", "sha256"}
+	}
+	tarArgs := append(append([]string{}, pre...), "tar")
+	untarArgs := append(append([]string{}, pre...), "untar")
+	if useIndex {
+		archive = filepath.Join(c.Dir(), "tree.caidx")
+		tarArgs = append(tarArgs, "-i", "-s", storeDir, "-m", "1:4:16", "-n", strconv.Itoa(c.Range(1, 4, "cli.n")))
+		untarArgs = append(untarArgs, "-i", "-s", storeDir, "-n", strconv.Itoa(c.Range(1, 4, "cli.n2")))
+	}
+	tarArgs = append(tarArgs, archive, src)
+	untarArgs = append(untarArgs, archive, dst)
+	c.Class(fmt.Sprintf("cli tar/untar index=%v sha256=%v entries<=%d", useIndex, sha256mode, (nent+7)/8*8))
+	c.Note("real `desync %s` then `desync %s`", strings.Join(tarArgs, " "), strings.Join(untarArgs, " "))
+	c.NonTrivial()
+	exit, _, stderr, err := runDesync(tarArgs...)
+	if err != nil {
+		c.HarnessError("%v", err)
+		return
+	}
+	if exit != 0 {
+		c.Violate("tar-failed", "desync tar", "exit %d: %s", exit, tailBytes(stderr, 300))
+		return
+	}
+	first, _ := os.ReadFile(archive)
+	// packing twice gives identical bytes
+	if exit, _, _, _ := runDesync(tarArgs...); exit == 0 {
+		if second, _ := os.ReadFile(archive); !bytes.Equal(first, second) {
+			c.Violate("archive-not-deterministic", "desync tar", "two runs of the same tar command wrote different files (%d vs %d bytes)", len(first), len(second))
+			return
+		}
+	}
+	exit, _, stderr, err = runDesync(untarArgs...)
+	if err != nil {
+		c.HarnessError("%v", err)
+		return
+	}
+	c.SubEval(1)
+	if exit != 0 {
+		c.Violate("untar-failed", "desync untar", "exit %d: %s", exit, tailBytes(stderr, 300))
+		return
+	}
+	got, err := snapshot(dst)
+	if err != nil {
+		c.HarnessError("%v", err)
+		return
+	}
+	if cat, d := diffTrees(want, got, map[string]bool{"mtime-symlink": true}); cat != "" {
+		c.Violate("tree-differs", "desync tar+untar/"+cat, "%s", d)
+		return
+	}
+	c.Outcome("ok")
+}
+
+// startServer runs `desync <args> -l 127.0.0.1:<port>` and waits until the port accepts connections.
+func startServer(args ...string) (stop func(), addr string, err error) {
+	ln, err := net.Listen("tcp", "127.0.0.1:0")
+	if err != nil {
+		return nil, "", err
+	}
+	addr = ln.Addr().String()
+	ln.Close()
+	cmd := exec.Command(desyncBin(), append(args, "-l", addr)...)
+	var out bytes.Buffer
+	cmd.Stdout, cmd.Stderr = &out, &out
+	cmd.Env = append(os.Environ(), "HOME=/nonexistent-verif-home")
+	if err := cmd.Start(); err != nil {
+		return nil, "", err
+	}
+	stop = func() { cmd.Process.Kill(); cmd.Wait() }
+	for i := 0; i < 600; i++ {
+		if conn, err := net.Dial("tcp", addr); err == nil {
+			conn.Close()
+			return stop, addr, nil
+		}
+		time.Sleep(10 * time.Millisecond)
+	}
+	stop()
+	return nil, "", fmt.Errorf("%w: server did not start listening: %s", errProcTimeout, out.String())
+}
+
+// C14: the real chunk-server / index-server commands, talked to by the real HTTP client over loopback.
+func runC14Proc(c *fw.Case) {
+	dir := filepath.Join(c.Dir(), "up.d")
+	os.MkdirAll(dir, 0755)
+	r := c.Rand("proc.seed")
+	mk := func() []byte {
+		b := make([]byte, 1+r.IntN(3000))
+		for i := range b {
+			b[i] = byte(r.IntN(256))
+		}
+		return b
+	}
+	if c.Bool("proc.index") {
+		writable := c.Bool("proc.writable")
+		args := []string{"index-server", "-s", dir}
+		if writable {
+			args = append(args, "-w")
+		}
+		idx := mkIndex(mk(), sizes{64, 256, 1024})
+		writeIndexFile(filepath.Join(dir, "there.caibx"), idx)
+		c.Class(fmt.Sprintf("cli index-server writable=%v", writable))
+		c.NonTrivial()
+		stop, addr, err := startServer(args...)
+		if errors.Is(err, errProcTimeout) {
+			c.Probe("procsim-timeout-case-dropped")
+			return
+		}
+		if err != nil {
+			c.HarnessError("%v", err)
+			return
+		}
+		defer stop()
+		u, _ := url.Parse("http://" + addr + "/")
+		cl, err := desync.NewRemoteHTTPIndexStore(u, desync.StoreOptions{ErrorRetry: 0})
+		if err != nil {
+			c.HarnessError("%v", err)
+			return
+		}
+		got, err := cl.GetIndex("there.caibx")
+		c.SubEval(1)
+		if err != nil {
+			c.Violate("present-index-failed", "desync index-server", "GetIndex of an existing index: %v", err)
+			return
+		}
+		if d := sameIndex(got, idx); d != "" {
+			c.Violate("data-altered", "desync index-server", "index arrived altered: %s", d)
+			return
+		}
+		if _, err := cl.GetIndex("absent.caibx"); !isMissing(err) {
+			c.Violate("missing-misreported", "desync index-server", "GetIndex of a missing index returned %v", err)
+			return
+		}
+		idx2 := mkIndex(mk(), sizes{64, 256, 1024})
+		err = cl.StoreIndex("new.caibx", idx2)
+		if writable {
+			if err != nil {
+				c.Violate("store-failed", "desync index-server -w", "StoreIndex: %v", err)
+				return
+			}
+			f, ferr := os.Open(filepath.Join(dir, "new.caibx"))
+			if ferr != nil {
+				c.Violate("data-altered", "desync index-server -w", "StoreIndex succeeded but no file was written")
+				return
+			}
+			st, perr := desync.IndexFromReader(f)
+			f.Close()
+			if perr != nil || sameIndex(st, idx2) != "" {
+				c.Violate("data-altered", "desync index-server -w", "stored index differs (%v)", perr)
+				return
+			}
+		} else if err == nil {
+			c.Violate("failure-reported-as-success", "desync index-server", "a read-only index server accepted StoreIndex")
+			return
+		}
+		c.Outcome("ok")
+		return
+	}
+	unc := c.Bool("proc.uncompressed")
+	writable := c.Bool("proc.writable")
+	args := []string{"chunk-server", "-s", dir}
+	if unc {
+		args = append(args, "-u")
+	}
+	if writable {
+		args = append(args, "-w")
+	}
+	ls, _ := desync.NewLocalStore(dir, desync.StoreOptions{})
+	data := mk()
+	ch := desync.NewChunk(data)
+	ls.StoreChunk(ch)
+	c.Class(fmt.Sprintf("cli chunk-server unc=%v writable=%v", unc, writable))
+	c.NonTrivial()
+	stop, addr, err := startServer(args...)
+	if errors.Is(err, errProcTimeout) {
+		c.Probe("procsim-timeout-case-dropped")
+		return
+	}
+	if err != nil {
+		c.HarnessError("%v", err)
+		return
+	}
+	defer stop()
+	u, _ := url.Parse("http://" + addr + "/")
+	cl, err := desync.NewRemoteHTTPStore(u, desync.StoreOptions{Uncompressed: unc, ErrorRetry: 0})
+	if err != nil {
+		c.HarnessError("%v", err)
+		return
+	}
+	got, err := cl.GetChunk(ch.ID())
+	c.SubEval(1)
+	if err != nil {
+		c.Violate("present-chunk-failed", "desync chunk-server", "GetChunk of a present chunk (server -u=%v): %v", unc, err)
+		return
+	}
+	if b, derr := got.Data(); derr != nil || !bytes.Equal(b, data) {
+		c.Violate("data-altered", "desync chunk-server", "chunk arrived altered (server -u=%v): %d bytes, %v", unc, len(b), derr)
+		return
+	}
+	if ok, err := cl.HasChunk(ch.ID()); err != nil || !ok {
+		c.Violate("missing-misreported", "desync chunk-server", "HasChunk of a present chunk: %v %v", ok, err)
+		return
+	}
+	absent := desync.ChunkID{0xaa, 0xbb}
+	if _, err := cl.GetChunk(absent); !isMissing(err) {
+		c.Violate("missing-misreported", "desync chunk-server", "GetChunk of a missing chunk returned %v", err)
+		return
+	}
+	if ok, err := cl.HasChunk(absent); err != nil || ok {
+		c.Violate("missing-misreported", "desync chunk-server", "HasChunk of a missing chunk: %v %v", ok, err)
+		return
+	}
+	data2 := mk()
+	ch2 := desync.NewChunk(data2)
+	err = cl.StoreChunk(ch2)
+	if writable {
+		if err != nil {
+			c.Violate("store-failed", "desync chunk-server -w", "StoreChunk: %v", err)
+			return
+		}
+		back, gerr := ls.GetChunk(ch2.ID())
+		if gerr != nil {
+			c.Violate("data-altered", "desync chunk-server -w", "StoreChunk succeeded but the upstream store cannot deliver the chunk: %v", gerr)
+			return
+		}
+		if b, _ := back.Data(); !bytes.Equal(b, data2) {
+			c.Violate("data-altered", "desync chunk-server -w", "stored chunk differs")
+			return
+		}
+	} else if err == nil {
+		c.Violate("failure-reported-as-success", "desync chunk-server", "a read-only chunk server accepted StoreChunk")
+		return
 	}
 	c.Outcome("ok")
 }
